@@ -158,7 +158,11 @@ impl EventGen for Container {
                 if let Some((start, _end)) = self.0.event_range {
                     el.event_range = Some((start, start)); // emulate an Empty element
                 }
-                el.generate_events(context)
+                // the same element, now with its text as an attribute: not a level deeper
+                context.dec_depth()?;
+                let res = el.generate_events(context);
+                context.inc_depth()?;
+                res
             } else {
                 let mut new_el = self.0.clone();
                 // Special case <svg> elements with an xmlns attribute - passed through
